@@ -41,6 +41,13 @@ CHECKS = {
         "text": "Directory trees whose inner names repeat the destination's own path (relative and absolute spellings, str and bytes) are created on disk; both synthetic-event generators must yield exactly one correctly flavoured, synthetic event per descendant with dest = dest dir + rel and src = src dir + rel, parents first.",
         "note": "Trusted: the scandir enumeration in props/c14.py. No symlinks; normalized src/dest.",
     },
+    "C16": {
+        "engine": "pure+dsched",
+        "design_ref": "DESIGN.md §4 C16",
+        "technique": "property-based testing: exhaustive put/get sequences against a nondeterministic sequential reference model, generated schedules + linearizability check for the concurrent part, Hypothesis pairs for the equality/hash law",
+        "text": "All put/get_nowait sequences up to the length bound over equal-but-distinct and different (event, watch) items run on the real EventQueue and must be behaviours of the specification (FIFO, only a permitted consecutive-duplicate drop); concurrent producer/consumer histories under generated schedules must be linearizable w.r.t. the same specification; event equality must be class + five fields, with consistent hashes.",
+        "note": "A drop is permitted, not required, by the statement; a queue that never coalesces is therefore not reported. Trusted: the sequential specification in props/c16.py; for the concurrent part the substitute primitives of vlib/dsched.",
+    },
 }
 
 ALL = [f"C{i:02d}" for i in range(1, 21)]
